@@ -14,8 +14,33 @@ def build():
     ub.spec(open(os.path.join(HERE, "partition_tail.prelude.rs")).read())
     p = ub.piece(Piece(sl, rewrite_asserts=True))
     p.after("assert(verif_assert_0);", " // @ob C02.partition_tail.source_assertion_enough_retained_or_nothing_dropped")
-    ub.spec("    (to_retain, to_drop)\n}\n\n} // verus!\nfn main() {}\n")
-    ub.functions = ["dedupe::partition [statement slice `let n = max(1, ..` .. `assert!(..)`]"]
+    ub.spec("""    (to_retain, to_drop)
+}
+
+// stand-in for FileSubGroup: its two pattern tests are uninterpreted (their bounded contracts are the Kani units
+// c08_subgroup_keep_drop_bounded); what is proved is how `partition` combines them when it splits the sub-groups.
+pub struct SubGroup { _p: () }
+pub uninterp spec fn spec_should_keep(m: &SubGroup, c: &DedupeConfig) -> bool;
+pub uninterp spec fn spec_may_drop(m: &SubGroup, c: &DedupeConfig) -> bool;
+impl SubGroup {
+    #[verifier::external_body]
+    pub fn should_keep(&self, config: &DedupeConfig) -> (r: bool) ensures r == spec_should_keep(self, config) { unimplemented!() }
+    #[verifier::external_body]
+    pub fn may_drop(&self, config: &DedupeConfig) -> (r: bool) ensures r == spec_may_drop(self, config) { unimplemented!() }
+}
+
+// expression slice: the predicate of `.partition(|m| ..)` in dedupe::partition (true = retained)
+fn split_predicate(m: &SubGroup, config: &DedupeConfig) -> (r: bool)
+    ensures
+        spec_should_keep(m, config) ==> r, // @ob C08.split.sub_groups_matching_a_keep_pattern_are_retained
+        !spec_may_drop(m, config) ==> r, // @ob C08.split.sub_groups_not_matching_the_drop_patterns_are_retained
+        r ==> (spec_should_keep(m, config) || !spec_may_drop(m, config)), // @ob C08.split.everything_else_is_droppable
+{
+    """)
+    ub.piece(Piece(src.call_arg(fn, ".partition", 0)))
+    ub.spec("\n}\n\n} // verus!\nfn main() {}\n")
+    ub.functions = ["dedupe::partition [statement slice `let n = max(1, ..` .. `assert!(..)`]",
+                    "dedupe::partition [expression slice: predicate of the keep/drop split]"]
     ub.assumptions = [
         "std::cmp::max/min on usize are the mathematical max/min (assume_specification + broadcast axioms)",
         "Vec::drain(a..b) yields old[a..b] and leaves old[..a] ++ old[b..]; Vec::extend appends the iterator's items in order",
